@@ -1,42 +1,11 @@
 (* Render/LoopProofs.v — the render loop with a queue that drops whole chunks: every delivered frame
-   is displayed right, as long as no drop leaves a stale image (class DroppedImageErase). *)
+   is displayed right, up to the placements a stale drop left behind (class DroppedImageErase);
+   exactly, as long as no drop is stale. *)
 From Coq Require Import List NArith Bool Arith Lia.
 From SNT Require Import Render.Cell Render.Screen Render.Frame Render.Domain Render.GridLemmas
   Render.ScreenProofs Render.PaintProofs Render.ExecProofs Render.Den Render.FrameTheorem Render.ShowProofs
-  Render.DomainProofs Render.Spec Render.HistoryProofs Render.Loop.
+  Render.DomainProofs Render.Spec Render.HistoryProofs Render.ResumeProofs Render.Loop.
 Import ListNotations.
-
-(* ---------- executing commands keeps the screen a screen ---------- *)
-Lemma exec_dims : forall o s c h w,
-  sh s = h -> sw s = w -> gdims (sgrid s) h w ->
-  sh (exec o s c) = h /\ sw (exec o s c) = w /\ gdims (sgrid (exec o s c)) h w.
-Proof.
-  intros o s c h w Hh Hw Hd. destruct c as [ch|f|r c|n|i r c|i [[r c]|]|b|]; simpl; auto.
-  - destruct (cur s) as [r c].
-    destruct (((cw o ch =? 1) || (cw o ch =? 2)) && (c + cw o ch <=? sw s) && (r <? sh s)); simpl; auto.
-    split; [auto|split; [auto|]]. apply gdims_on_row; auto. intros. apply put_char_length.
-  - destruct (c <? sw s); simpl; auto.
-  - destruct (cur s) as [r c].
-    destruct ((0 <? n) && (c <? sw s) && (r <? sh s)); simpl; auto.
-    split; [auto|split; [auto|]]. apply gdims_on_row; auto. intros. apply erase_cells_length.
-  - destruct (place_mem (i, r, c) (places s)); simpl; auto.
-Qed.
-
-Lemma exec_list_dims : forall o l s h w,
-  sh s = h -> sw s = w -> gdims (sgrid s) h w ->
-  sh (exec_list o s l) = h /\ sw (exec_list o s l) = w /\ gdims (sgrid (exec_list o s l)) h w.
-Proof.
-  intros o. induction l as [|c l IH]; intros s h w Hh Hw Hd.
-  - rewrite exec_list_nil. auto.
-  - rewrite exec_list_cons. destruct (exec_dims o s c h w Hh Hw Hd) as (H1 & H2 & H3). apply IH; auto.
-Qed.
-
-Lemma exec_list_scr_ok : forall o l s h w,
-  scr_ok s h w -> err (exec_list o s l) = false -> scr_ok (exec_list o s l) h w.
-Proof.
-  intros o l s h w (Hh & Hw & _ & Hd) He.
-  destruct (exec_list_dims o l s h w Hh Hw Hd) as (H1 & H2 & H3). unfold scr_ok. auto.
-Qed.
 
 Lemma exec_sync : forall o s cs, exec_list o s ([CSync true] ++ cs ++ [CSync false]) = exec_list o s cs.
 Proof.
@@ -75,68 +44,73 @@ Proof.
   rewrite E in IH'. apply IH'. exact H2.
 Qed.
 
-(* ---------- clear() on a terminal in any state whose placements the renderer knows ---------- *)
-Lemma hinv_clear_any : forall o h w r v scr, oracle_ok o ->
-  HInv o h w r v -> scr_ok scr h w ->
-  (forall i rr cc, In (i, rr, cc) (places scr) -> img_cell (back r) i rr cc) ->
-  let scr' := exec_list o scr (fst (rclear r)) in
-  HInv o h w (snd (rclear r)) scr'.
+(* ---------- clear() on a terminal in any state ---------- *)
+Lemma is_img_at_cell : forall s i r c, is_img_at s (i, r, c) = true <-> img_cell s i r c.
 Proof.
-  intros o h w r v scr Hok HI Hs Hpl. pose proof Hok as (Hsp & Hfs & Hlaw). cbv zeta.
-  destruct (rclear_cmds r) as [Hall Hiff].
-  destruct (exec_image_erases o h w (fst (rclear r)) scr Hs Hall) as (Hs' & Hg & Hp).
-  rewrite rclear_state, (hi_h _ _ _ _ _ HI), (hi_w _ _ _ _ _ HI).
-  constructor; simpl; auto.
-  - apply gdims_gmake.
-  - fold (blank_surface h w). rewrite blank_resolved. apply good_blank. auto.
-  - apply good_blank. auto.
-  - exists MDamaged. split; auto.
-  - intros i rr cc. rewrite Hp. split.
-    + intros [Hin Hne]. exfalso. apply Hne. apply Hiff. apply Hpl. exact Hin.
-    + intros H. exfalso. eapply img_cell_blank; eauto.
+  intros s i r c. unfold is_img_at, img_cell. split.
+  - intros H. destruct (gget s r c) as [x|] eqn:E; [|discriminate].
+    destruct (ckind x) as [ch|j|g] eqn:K; try discriminate.
+    apply N.eqb_eq in H. subst. eauto.
+  - intros (x & -> & ->). apply N.eqb_refl.
 Qed.
 
-Lemma is_img_at_cell : forall s i r c, is_img_at s (i, r, c) = true -> img_cell s i r c.
+Lemma hinv_weaken : forall o h w r v E E',
+  (forall p, In p E -> In p E') -> HInv o h w r v E -> HInv o h w r v E'.
 Proof.
-  intros s i r c H. unfold is_img_at in H. unfold img_cell.
-  destruct (gget s r c) as [x|] eqn:E; [|discriminate].
-  destruct (ckind x) as [ch|j|g] eqn:K; try discriminate.
-  apply N.eqb_eq in H. subst. eauto.
+  intros o h w r v E E' Hsub HI. pose proof (hi_pl_hi _ _ _ _ _ _ HI) as Hhi. destruct HI. constructor; auto.
+  intros i rr cc Hin. destruct (Hhi i rr cc Hin); auto.
+Qed.
+
+(* what the terminal still places after the commands of clear(): nothing of the back buffer *)
+Lemma hinv_clear_any : forall o h w r scr E, oracle_ok o ->
+  rh r = h -> rw r = w -> scr_ok scr h w ->
+  (forall i rr cc, In (i, rr, cc) (places scr) -> ~ img_cell (back r) i rr cc -> In (i, rr, cc) E) ->
+  let scr' := exec_list o scr (fst (rclear r)) in
+  HInv o h w (snd (rclear r)) scr' E.
+Proof.
+  intros o h w r scr E Hok Hh Hw Hs Hpl. cbv zeta.
+  destruct (rclear_cmds r) as [Hall Hiff].
+  destruct (exec_image_erases o h w (fst (rclear r)) scr Hs Hall) as (Hs' & Hg & Hp).
+  rewrite rclear_state, Hh, Hw.
+  apply (hinv_weaken o h w _ _ (places (exec_list o scr (fst (rclear r))))).
+  - intros [[i rr] cc] Hin. apply Hp in Hin. destruct Hin as [Hin Hne].
+    apply Hpl; auto. intros Hb. apply Hne. apply Hiff. exact Hb.
+  - apply hinv_fresh; auto.
 Qed.
 
 (* ---------- the invariant of the loop ---------- *)
 Record LInv (o : oracle) (h w : nat) (r : rstate) (npend : nat) (scr : screen) (q : list chunk)
-       (last : grid cell) : Prop := {
+       (E : list placement) (last : grid cell) : Prop := {
   li_scr : scr_ok scr h w;
   li_len : npend = length q;
   li_chain : snd (deliver_all o h w scr q) = true;          (* every pending chunk will be displayed right *)
-  li_sync : HInv o h w r (fst (deliver_all o h w scr q));   (* the renderer is in sync with the screen once
-                                                               everything pending has been delivered *)
+  li_sync : HInv o h w r (fst (deliver_all o h w scr q)) E; (* the renderer is in sync with the screen once
+                                                               everything pending has been delivered, up to
+                                                               the leftovers E of the last stale drop *)
   li_back : back r = gmap (resolve o) last }.
 
 Definition good_iters (o : oracle) (h w : nat) (its : list iter) : Prop :=
   Forall (fun it => good_surface o h w (it_draw it)) its.
 
-Lemma frame_chunk : forall o h w r v cc, oracle_ok o ->
-  HInv o h w r v ->
-  let c := (cc ++ [CSync true] ++ fst (frame o r) ++ [CSync false], Some (front r)) in
+Lemma frame_chunk : forall o h w r v E cc, oracle_ok o ->
+  HInv o h w r v E ->
+  let c := (cc ++ [CSync true] ++ fst (frame o r) ++ [CSync false], Some (front r, E)) in
   forall v0, exec_list o v0 cc = v ->
   snd (deliver o h w v0 c) = true
-  /\ HInv o h w (snd (frame o r)) (fst (deliver o h w v0 c)).
+  /\ HInv o h w (snd (frame o r)) (fst (deliver o h w v0 c)) E.
 Proof.
-  intros o h w r v cc Hok HI c v0 Hv. unfold deliver, c. cbn [fst snd].
+  intros o h w r v E cc Hok HI c v0 Hv. unfold deliver, c. cbn [fst snd].
   rewrite exec_list_app, Hv, exec_sync.
-  destruct (hinv_frame o h w r v Hok HI) as (HI' & _).
-  split; auto. rewrite (frame_shows o h w r v Hok HI), andb_true_r.
+  destruct (hinv_frame o h w r v E Hok HI) as (HI' & _).
+  split; auto. rewrite (frame_shows_upto o h w r v E Hok HI), andb_true_r.
   apply negb_true_iff. apply HI'.
 Qed.
 
-Theorem render_loop_correct : forall o h w its r npend scr q last, oracle_ok o ->
-  LInv o h w r npend scr q last -> good_iters o h w its ->
-  snd (loop_spec o h w scr q last its (loop_model o r npend its)) = false ->
-  fst (loop_spec o h w scr q last its (loop_model o r npend its)) = true.
+Theorem render_loop_correct : forall o h w its r npend scr q E last, oracle_ok o ->
+  LInv o h w r npend scr q E last -> good_iters o h w its ->
+  fst (loop_spec o h w false scr q E last its (loop_model o r npend its)) = true.
 Proof.
-  intros o h w. induction its as [|it its IH]; intros r npend scr q last Hok HL Hgood Hst.
+  intros o h w. induction its as [|it its IH]; intros r npend scr q E last Hok HL Hgood.
   { simpl. apply HL. }
   inversion Hgood as [|? ? Hg Hgood']; subst.
   pose proof Hok as (Hsp & Hfs & Hlaw).
@@ -145,17 +119,17 @@ Proof.
   (* poll: the tty takes n chunks *)
   pose proof (deliver_all_split o h w n q scr) as Hsplit.
   destruct (deliver_all o h w scr (firstn n q)) as [scr1 ok1] eqn:E1. cbn [fst snd] in Hsplit.
-  pose proof (li_chain _ _ _ _ _ _ _ _ HL) as Hchain. rewrite Hsplit in Hchain. cbn [snd] in Hchain.
+  pose proof (li_chain _ _ _ _ _ _ _ _ _ HL) as Hchain. rewrite Hsplit in Hchain. cbn [snd] in Hchain.
   apply andb_true_iff in Hchain. destruct Hchain as [Hok1 Hchain1]. subst ok1.
   assert (Hs1 : scr_ok scr1 h w).
-  { pose proof (deliver_all_scr_ok o h w (firstn n q) scr (li_scr _ _ _ _ _ _ _ _ HL)) as H.
+  { pose proof (deliver_all_scr_ok o h w (firstn n q) scr (li_scr _ _ _ _ _ _ _ _ _ HL)) as H.
     rewrite E1 in H. apply H. reflexivity. }
   set (q1 := skipn n q) in *.
   assert (HV : fst (deliver_all o h w scr1 q1) = fst (deliver_all o h w scr q)) by (rewrite Hsplit; reflexivity).
   assert (Hnp : npend - Nat.min (it_accept it) npend = length q1).
-  { unfold q1, n. rewrite skipn_length, (li_len _ _ _ _ _ _ _ _ HL). reflexivity. }
+  { unfold q1, n. rewrite skipn_length, (li_len _ _ _ _ _ _ _ _ _ HL). reflexivity. }
   rewrite Hnp in *.
-  pose proof (li_sync _ _ _ _ _ _ _ _ HL) as HI. rewrite <- HV in HI.
+  pose proof (li_sync _ _ _ _ _ _ _ _ _ HL) as HI. rewrite <- HV in HI.
   set (fp := match it_pending it with Some k => k | None => length q1 end) in *.
   set (drop := terminal_frames_drop <? fp) in *.
   set (cc := if drop then fst (rclear r) else []) in *.
@@ -163,80 +137,103 @@ Proof.
   set (q2 := if drop then firstn (it_keep it) q1 else q1) in *.
   set (last1 := if drop then gmake h w cell_default else last) in *.
   set (np2 := if drop then Nat.min (it_keep it) (length q1) else length q1) in *.
-  set (stl := if drop then stale_after_drop o h w scr1 q2 last else false) in *.
+  set (sp := if drop then stale_places o h w scr1 q2 last else []) in *.
+  set (E2 := if drop then sp else E) in *.
   (* after the (possible) drop and clear *)
-  assert (Hstl : stl = false).
-  { destruct (it_action it);
-      match type of Hst with snd (let '(_, _) := ?X in _) = false => destruct X end;
-      cbn [snd] in Hst; apply orb_false_iff in Hst; tauto. }
   assert (Hphase : snd (deliver_all o h w scr1 q2) = true
                    /\ np2 = length q2
-                   /\ HInv o h w r1 (exec_list o (fst (deliver_all o h w scr1 q2)) cc)
+                   /\ HInv o h w r1 (exec_list o (fst (deliver_all o h w scr1 q2)) cc) E2
                    /\ back r1 = gmap (resolve o) last1).
-  { unfold stl, q2, np2, r1, cc, last1 in *. destruct drop.
+  { unfold sp, E2, q2, np2, r1, cc, last1 in *. destruct drop.
     - assert (Hc2 : snd (deliver_all o h w scr1 (firstn (it_keep it) q1)) = true).
       { pose proof (deliver_all_split o h w (it_keep it) q1 scr1) as H.
         rewrite H in Hchain1. cbn [snd] in Hchain1. apply andb_true_iff in Hchain1. tauto. }
       set (v' := fst (deliver_all o h w scr1 (firstn (it_keep it) q1))) in *.
       assert (Hsv : scr_ok v' h w) by (apply deliver_all_scr_ok; auto).
-      assert (Hpl : forall i rr cc0, In (i, rr, cc0) (places v') -> img_cell (back r) i rr cc0).
-      { intros i rr cc0 Hin. unfold stale_after_drop in Hstl. apply negb_false_iff in Hstl.
-        rewrite forallb_forall in Hstl. fold v' in Hstl. rewrite (li_back _ _ _ _ _ _ _ _ HL).
-        apply is_img_at_cell. apply Hstl. exact Hin. }
       split; [exact Hc2|]. split; [rewrite firstn_length; reflexivity|]. split.
-      + exact (hinv_clear_any o h w r _ v' Hok HI Hsv Hpl).
-      + rewrite rclear_state. cbn [rnew back]. rewrite (hi_h _ _ _ _ _ HI), (hi_w _ _ _ _ _ HI).
+      + apply (hinv_clear_any o h w r v'); auto.
+        * apply HI.
+        * apply HI.
+        * intros i rr cc0 Hin Hne. unfold stale_places. fold v'. apply filter_In. split; [exact Hin|].
+          apply negb_true_iff. destruct (is_img_at (gmap (resolve o) last) (i, rr, cc0)) eqn:Ei; auto.
+          exfalso. apply Hne. rewrite (li_back _ _ _ _ _ _ _ _ _ HL). apply is_img_at_cell. exact Ei.
+      + rewrite rclear_state. cbn [rnew back]. rewrite (hi_h _ _ _ _ _ _ HI), (hi_w _ _ _ _ _ _ HI).
         fold (blank_surface h w). rewrite blank_resolved. reflexivity.
     - split; [exact Hchain1|]. split; [reflexivity|]. split.
       + rewrite exec_list_nil. exact HI.
       + apply HL. }
   destruct Hphase as (Hc2 & Hnp2 & HI1 & Hb1).
   set (v0 := fst (deliver_all o h w scr1 q2)) in *.
-  destruct (hinv_draw o h w r1 _ (it_draw it) HI1 Hg) as [HI2 Hf2].
+  destruct (hinv_draw o h w r1 _ E2 (it_draw it) HI1 Hg) as [HI2 Hf2].
   set (r2 := rdraw r1 (it_draw it)) in *.
   assert (Hb2 : back r2 = gmap (resolve o) last1).
   { unfold r2, rdraw. destruct (grid_dims (it_draw it) (rh r1) (rw r1)); simpl; exact Hb1. }
   destruct (it_action it).
   - (* a frame *)
-    destruct (frame_chunk o h w r2 _ cc Hok HI2 v0 eq_refl) as [Hck HIn]. rewrite Hf2 in Hck, HIn.
-    match type of Hst with snd (let '(_, _) := ?X in _) = false => destruct X as [ok st] eqn:Erest end.
+    destruct (frame_chunk o h w r2 _ E2 cc Hok HI2 v0 eq_refl) as [Hck HIn]. rewrite Hf2 in Hck, HIn.
+    fold q2. fold sp. fold E2.
+    match goal with |- fst (let '(_, _) := ?X in _) = true => destruct X as [ok st] eqn:Erest end.
     cbn [fst snd] in *. cbn [andb].
     replace ok with (fst (ok, st)) by reflexivity. rewrite <- Erest.
-    fold q2. fold q2 in Erest.
     apply IH; auto.
+    constructor.
+    + exact Hs1.
+    + rewrite app_length. cbn [length]. lia.
+    + rewrite deliver_all_app. cbn [snd]. fold v0. rewrite Hc2. cbn [andb deliver_all].
+      destruct (deliver o h w v0 _) as [s2 k2] eqn:Ed. cbn [snd] in *. rewrite Hck. reflexivity.
+    + rewrite deliver_all_app. cbn [fst]. fold v0. cbn [deliver_all].
+      destruct (deliver o h w v0 _) as [s2 k2] eqn:Ed. cbn [fst] in *. exact HIn.
+    + destruct (hinv_frame o h w r2 _ E2 Hok HI2) as (_ & _ & Hbk & _). rewrite Hbk, Hf2. reflexivity.
+  - (* WaitNoFrame: the drawing is dropped; the chunk holds at most the commands of clear() *)
+    destruct (hinv_skip o h w r2 _ E2 Hok HI2) as [HIs _].
+    fold q2. fold sp. fold E2. fold last1.
+    match goal with |- fst (let '(_, _) := ?X in _) = true => destruct X as [ok st] eqn:Erest end.
+    cbn [fst snd] in *. cbn [andb].
+    replace ok with (fst (ok, st)) by reflexivity. rewrite <- Erest.
+    apply IH; auto.
+    destruct cc as [|c0 cc'] eqn:Ecc; cbn [is_nil] in *.
+    + rewrite exec_list_nil in HIs. constructor; auto.
     + constructor.
       * exact Hs1.
       * rewrite app_length. cbn [length]. lia.
       * rewrite deliver_all_app. cbn [snd]. fold v0. rewrite Hc2. cbn [andb deliver_all].
-        destruct (deliver o h w v0 _) as [s2 k2] eqn:Ed. cbn [snd] in *. rewrite Hck. reflexivity.
-      * rewrite deliver_all_app. cbn [fst]. fold v0. cbn [deliver_all].
-        destruct (deliver o h w v0 _) as [s2 k2] eqn:Ed. cbn [fst] in *. exact HIn.
-      * destruct (hinv_frame o h w r2 _ Hok HI2) as (_ & _ & Hbk & _). rewrite Hbk, Hf2. reflexivity.
-    + rewrite Erest. apply orb_false_iff in Hst. tauto.
-  - (* WaitNoFrame: the drawing is dropped; the chunk holds at most the commands of clear() *)
-    destruct (hinv_skip o h w r2 _ Hok HI2) as [HIs _].
-    match type of Hst with snd (let '(_, _) := ?X in _) = false => destruct X as [ok st] eqn:Erest end.
-    cbn [fst snd] in *. cbn [andb].
-    replace ok with (fst (ok, st)) by reflexivity. rewrite <- Erest.
-    fold q2. fold q2 in Erest. fold last1. fold last1 in Erest.
-    apply IH; auto.
-    + destruct cc as [|c0 cc'] eqn:Ecc; cbn [is_nil] in *.
-      * rewrite exec_list_nil in HIs. constructor; auto.
-      * constructor.
-        -- exact Hs1.
-        -- rewrite app_length. cbn [length]. lia.
-        -- rewrite deliver_all_app. cbn [snd]. fold v0. rewrite Hc2. cbn [andb deliver_all].
-           unfold deliver. cbn [fst snd]. rewrite !andb_true_r. apply negb_true_iff. apply HIs.
-        -- rewrite deliver_all_app. cbn [fst]. fold v0. cbn [deliver_all]. unfold deliver. cbn [fst snd]. exact HIs.
-        -- unfold rskip. cbn [back]. exact Hb2.
-    + rewrite Erest. apply orb_false_iff in Hst. tauto.
+        unfold deliver. cbn [fst snd]. rewrite !andb_true_r. apply negb_true_iff. apply HIs.
+      * rewrite deliver_all_app. cbn [fst]. fold v0. cbn [deliver_all]. unfold deliver. cbn [fst snd]. exact HIs.
+      * unfold rskip. cbn [back]. exact Hb2.
 Qed.
 
 Lemma linv_init : forall o h w, oracle_ok o ->
-  LInv o h w (rnew h w false) 0 (blank_screen h w) [] (blank_surface h w).
+  LInv o h w (rnew h w false) 0 (blank_screen h w) [] [] (blank_surface h w).
 Proof.
   intros o h w Hok. constructor; simpl; auto.
   - unfold blank_screen. apply scr_ok_mk. apply gdims_gmake.
   - apply hinv_init. exact Hok.
   - fold (blank_surface h w). rewrite blank_resolved. reflexivity.
+Qed.
+
+(* ---------- without a stale drop nothing is tolerated: the strict verdict is the tolerant one ---------- *)
+Lemma loop_spec_strict : forall o h w its out scr q last,
+  snd (loop_spec o h w true scr q [] last its out) = false ->
+  loop_spec o h w true scr q [] last its out = loop_spec o h w false scr q [] last its out.
+Proof.
+  intros o h w. induction its as [|it its IH]; intros out scr q last Hst; destruct out as [|[dropped cs] out];
+    try reflexivity.
+  cbn [loop_spec] in *.
+  destruct (deliver_all o h w scr (firstn (Nat.min (it_accept it) (length q)) q)) as [scr1 ok1].
+  set (q1 := skipn (Nat.min (it_accept it) (length q)) q) in *.
+  set (q2 := if dropped then firstn (it_keep it) q1 else q1) in *.
+  set (sp := if dropped then stale_places o h w scr1 q2 last else []) in *.
+  assert (Hsp : sp = []).
+  { destruct (it_action it);
+      match type of Hst with snd (let '(_, _) := ?X in _) = false => destruct X end;
+      cbn [snd] in Hst; apply orb_false_iff in Hst; destruct Hst as [Hs _];
+      apply negb_false_iff in Hs; destruct sp; [reflexivity|discriminate|reflexivity|discriminate]. }
+  rewrite Hsp in *. cbn [is_nil negb orb] in *.
+  assert (HE : (if dropped then [] else []) = (@nil placement)) by (destruct dropped; reflexivity).
+  rewrite HE in *.
+  destruct (it_action it).
+  - rewrite IH; [reflexivity|].
+    match type of Hst with snd (let '(_, _) := ?X in _) = false => destruct X end. exact Hst.
+  - rewrite IH; [reflexivity|].
+    match type of Hst with snd (let '(_, _) := ?X in _) = false => destruct X end. exact Hst.
 Qed.
